@@ -4,6 +4,7 @@ import (
 	"fmt"
 	"net/http"
 	"strconv"
+	"strings"
 	"time"
 
 	"verifharness/mc"
@@ -14,7 +15,7 @@ import (
 // C08 — validation results are written back: 304 freshens, 200 replaces.
 func init() { register(&Check{ID: "C08", Run: runC08, ShardDepth: 3}) }
 
-var c08Answers = []string{"304", "304+X-New", "304+max-age=20", "304+CL+hop", "200-same-vary", "200-other-vary", "200-no-store", "500"}
+var c08Answers = []string{"304", "304+X-New", "304+max-age=20", "304+CL+hop", "304-no-date", "200-same-vary", "200-other-vary", "200-no-store", "500"}
 
 func runC08(x *mc.X) {
 	kind := mc.Pick(x, "stored.kind", []string{"max-age=10", "heuristic", "max-age=5,swr=100"})
@@ -91,7 +92,7 @@ func runC08(x *mc.X) {
 		var newTok string
 		answerFn(w, func(o *world.Origin, c *world.Call) (*http.Response, error) {
 			cond := c.Header.Get("If-None-Match") != "" || c.Header.Get("If-Modified-Since") != ""
-			is304 := ans == "304" || ans == "304+X-New" || ans == "304+max-age=20" || ans == "304+CL+hop"
+			is304 := strings.HasPrefix(ans, "304")
 			switch {
 			case is304 && cond:
 				hh := H("Vary", "X-A")
@@ -103,8 +104,12 @@ func runC08(x *mc.X) {
 				case "304+CL+hop":
 					hh = append(hh, [2]string{"Content-Length", "9999"}, [2]string{"Connection", "X-Hop"}, [2]string{"X-Hop", "h"}, [2]string{"Keep-Alive", "timeout=5"})
 				}
-				resp := o.Respond(c, RS{Status: 304, NoTok: true, H: hh})
+				resp := o.Respond(c, RS{Status: 304, NoTok: true, H: hh, NoDate: ans == "304-no-date"})
 				h304, c304 = resp.Header.Clone(), c
+				if h304.Get("Date") == "" {
+					// a recipient with a clock records the time of receipt as Date (RFC 9110 §6.6.1)
+					h304.Set("Date", httpDate(time.Now()))
+				}
 				return resp, nil
 			case ans == "200-other-vary":
 				resp := o.Respond(c, RS{Status: 200, H: H("Vary", "X-B", "Cache-Control", "max-age=30", "ETag", `"v2"`)})
